@@ -4,34 +4,51 @@ C06 — file and mapped representations of one image are interchangeable.
 -/
 namespace Pelite.Pe
 
+-- the statements are fixed; some carry hypotheses (`hi`, `hr`) the proofs do not need
+set_option linter.unusedVariables false
+
 /-- Shape, for EVERY accepted file (no layout assumption): the converted buffer has SizeOfImage bytes. -/
 theorem C06_to_view_size (f : Fmt) (img : Img) (v : View) (hv : fromBytes f .file img = .ok v) :
     v.toView.size = sizeOfImage v.b := by
-  sorry
+  obtain ⟨h1, h2⟩ := accept_soh hv
+  rw [toView_eq, cfold_size, initVec_size _ _ _ h2 h1]
 
 /-- Shape of the reverse conversion for every accepted mapped image. -/
 theorem C06_to_file_size (f : Fmt) (img : Img) (v : View) (hv : fromBytes f .view img = .ok v) :
     v.toFile.size = v.fileSize := by
-  sorry
+  obtain ⟨h1, h2⟩ := accept_soh hv
+  rw [toFile_eq, cfold_size, initVec_size _ _ _ (soh_le_fileSize hv) h1]
 
 /-- The headers appear unchanged at offset 0. -/
 theorem C06_to_view_headers (f : Fmt) (img : Img) (v : View) (hv : fromBytes f .file img = .ok v)
     (hl : Loadable v) (i : Nat) (hi : i < sizeOfHeaders v.b) :
     byteAt v.toView i = byteAt v.b i := by
-  sorry
+  obtain ⟨h1, h2⟩ := accept_soh hv
+  rw [toView_eq, cfold_out, initVec_hdr _ _ _ h2 h1 _ hi]
+  intro s hs
+  have := (hl.1 s hs).2.2.2.2
+  omega
 
 /-- Each section's stored bytes appear at their virtual addresses. -/
 theorem C06_to_view_section (f : Fmt) (img : Img) (v : View) (hv : fromBytes f .file img = .ok v)
     (hl : Loadable v) (s : Sec) (hs : s ∈ v.secs) (j : Nat) (hj : j < min s.vs s.rs) :
     byteAt v.toView (s.va + j) = byteAt v.b (s.prd + j) := by
-  sorry
+  obtain ⟨h1, h2⟩ := accept_soh hv
+  obtain ⟨a1, a2, a3, a4, a5⟩ := hl.1 s hs
+  rw [toView_eq]
+  exact cfold_in v.b Sec.va Sec.vs Sec.prd Sec.rs v.secs _ s hs hl.2 a1 a2
+    (by rw [initVec_size _ _ _ h2 h1]; exact a3) a4 j hj
 
 /-- The virtual-only tail of every section and every byte outside all sections is zero. -/
 theorem C06_to_view_zero (f : Fmt) (img : Img) (v : View) (hv : fromBytes f .file img = .ok v)
     (hl : Loadable v) (i : Nat) (hi : i < sizeOfImage v.b) (hh : sizeOfHeaders v.b ≤ i)
     (hout : ∀ s ∈ v.secs, ¬ (s.va ≤ i ∧ i < s.va + min s.vs s.rs)) :
     byteAt v.toView i = 0 := by
-  sorry
+  obtain ⟨h1, h2⟩ := accept_soh hv
+  rw [toView_eq, cfold_out, initVec_zero _ _ _ h2 h1 _ hh]
+  intro s hs
+  have := hout s hs
+  omega
 
 /-- For every RVA whose byte is stored in the file and mapped, the file view and the view over the
 converted buffer denote the same byte: `file.slice(rva)` starts at the byte that sits at offset
@@ -41,6 +58,26 @@ theorem C06_same_byte (f : Fmt) (img : Img) (v : View) (hv : fromBytes f .file i
     (hslice : v.slice rva 1 1 = .ok r)
     (hmapped : ∀ s, firstV v.secs rva = some s → rva - s.va < s.vs) :
     byteAt v.toView rva = byteAt v.b r.off := by
-  sorry
+  have hk : v.kind = .file := by
+    rw [((fromBytes_ok_iff _ _ _ _).1 hv).2]
+  have hsl : sliceFile v.img v.secs rva 1 1 = .ok r := by
+    unfold View.slice at hslice
+    rw [hk] at hslice
+    exact hslice
+  obtain ⟨_, _, _, s, hf, _, _, h3, h4, _, rfl⟩ :=
+    (C04_slice_file_ok_iff v.img v.secs (sections_in_range v.b) rva 1 1 hr r).1 hsl
+  obtain ⟨hmem, hc⟩ := firstV_some hf
+  have hva := (containsRva_nowrap (sections_in_range v.b s hmem) hc).1
+  have hm := hmapped s hf
+  have := C06_to_view_section f img v hv hl s hmem (rva - s.va) (by omega)
+  have e : s.va + (rva - s.va) = rva := by omega
+  rw [e] at this
+  exact this
+
+/-- Non-vacuity of `Loadable` is exercised on generator images by the correspondence check
+(`hyp=1` lines); the disjointness relation is satisfiable by distinct non-empty sections: -/
+example : [(⟨0,0,0x300,0x1000,0x200,0x400,0⟩ : Sec), ⟨0,0,0x100,0x2000,0x200,0x600,0⟩].Pairwise
+    (fun a b => a.va + a.vs ≤ b.va ∨ b.va + b.vs ≤ a.va) := by
+  decide
 
 end Pelite.Pe
